@@ -1,29 +1,39 @@
 ---- MODULE AdmissionTrace ----
-(* Trace validation for C10.  One trace per abstract case; the executor (harness/c10) instantiates the case with real
-   objects and real BLS key shares, calls the REAL handler synchronously (validatorapi.Component.<endpoint> or
-   parsigex's handle via the build-tag hook VerifHandle) and logs what happened:
+(* Trace validation for C10.  One trace per schedule; the executor (harness/c10) instantiates the schedule's cases
+   with real objects and real BLS key shares, calls the REAL handler synchronously (validatorapi.Component.<endpoint> or
+   parsigex's handle via the build-tag hook VerifHandle; fresh component instances per schedule, the SAME instances
+   for all calls of a schedule) and logs what happened:
      {"ev":"Reset","sid":n,"N":shares,"V":validators in the lock}
-     {"ev":"Submit","c":{path,kind,ver,node,sender,val,alt,ai,as}}        the case as received from the model
+     {"ev":"Submit","c":{path,kind,ver,node,sender,val,alt,ai,as}}        a single-element call, the case as received
+                                                                           from the model; the calls of one schedule
+                                                                           carry the same signature bytes (SameSig)
+     {"ev":"SubmitBatch","c":{...,"pat":{vs,cs,ss,bad}}}                  one call with 2..3 elements
      {"ev":"Deliver","k":entry of the submission (0: not one of them),"val":validator label of the set key,
                      "idx":ShareIdx of the delivered ParSignedData,"dt":duty type the subscriber was called with}
                                                                            one per entry a subscriber received
-     {"ev":"Return","err":handler returned an error}
+     {"ev":"Return","err":handler returned an error}                      after every call
    The handlers are synchronous, so everything a submission caused has happened when the call returns.
    Whether a rejection is reported with an error is not constrained (the statement is about what enters).
-   Latitude (cfg): InnerProofPolicy = "either", VCBatchPolicy = "either" - the statement is silent there. *)
+   Latitude (cfg): InnerProofPolicy = "either", VCBatchPolicy = "either", ReplayPolicy = "either" - the statement is
+   silent there. *)
 EXTENDS Admission, TraceCommon
 tvars == <<vars, tr, l>>
 TraceInit == Init /\ TrInit
 \* membership in Cases, without building the set
-IsCase(c) == /\ c.path \in {"vc", "peer"} /\ c.kind \in KindsOn(c.path) /\ c.ver \in VersionsOf(c.kind)
-             /\ c.node \in 1..N /\ c.val \in 1..V /\ c.sender = (IF c.path = "vc" THEN 0 ELSE (c.node % N) + 1)
+IsBase(c) == /\ c.path \in {"vc", "peer"} /\ c.ver \in VersionsOf(c.kind)
+             /\ c.node \in 1..N /\ c.val \in 1..V /\ c.sender = SenderOf(c.path, c.node)
+IsCase(c) == /\ c.path \in {"vc", "peer"} /\ c.kind \in KindsOn(c.path) /\ IsBase(c)
              /\ A(c.alt, c.ai, c.as) \in AltsOf(c.path, c.kind, Own(c), c.val)
+IsBatchCase(b) == /\ b.path \in {"vc", "peer"} /\ b.kind \in BatchKindsOn(b.path) /\ IsBase(b)
+                  /\ b.alt = "batch" /\ b.pat \in PatternsOf(b.path, b.kind)
 TReset == IsEvent("Reset") /\ l = 1 /\ Ev.N = N /\ Ev.V = V /\ UNCHANGED vars
-TSubmit == IsEvent("Submit") /\ IsCase(Ev.c) /\ Submit(Ev.c)
-TDeliver == /\ IsEvent("Deliver") /\ Ev.k \in 1..2 /\ Deliver(Ev.k)
+TSubmit == /\ IsEvent("Submit") /\ IsCase(Ev.c) /\ (calls = <<>> \/ SameSig(calls[1], Ev.c))
+           /\ Submit(Ev.c)
+TSubmitBatch == IsEvent("SubmitBatch") /\ IsBatchCase(Ev.c) /\ SubmitBatch(Ev.c)
+TDeliver == /\ IsEvent("Deliver") /\ Ev.k \in 1..3 /\ Deliver(Ev.k)
             /\ Ev.val = msg.entries[Ev.k].val /\ Ev.idx = msg.entries[Ev.k].idx /\ Ev.dt = msg.dt
-TReturn == IsEvent("Return") /\ l = TLen /\ Return
-TraceNext == TReset \/ TSubmit \/ TDeliver \/ TReturn
+TReturn == IsEvent("Return") /\ Return
+TraceNext == TReset \/ TSubmit \/ TSubmitBatch \/ TDeliver \/ TReturn
 TraceSpec == TraceInit /\ [][TraceNext]_tvars
 Mark == /\ CheckInv("TypeOK", TypeOK) /\ CheckInv("OnlyValidEnter", OnlyValidEnter)
         /\ CheckInv("ValidEnters", ValidEnters) /\ CheckInv("PeerAllOrNothing", PeerAllOrNothing)
